@@ -29,6 +29,33 @@ var mods = []string{"example.com/m", "example.com/m2", "m.test/x-y/z", "example.
 
 var editFiles = []string{"x1.go", "x1.go", "x1.go", "x2.go", "u1.go", "notes.txt", "testdata/t.txt", genFile}
 
+// files the directory hash must not lose: dot-files, files in dot- and underscore-directories (the go tool ignores
+// such directories, dirhash does not), and names that share a prefix, a suffix or the base name with gengo.sum
+// (only the module's own <root>/gengo.sum is left out of the hash of a package at the module root)
+var dotFiles = []string{".gitignore", ".gitattributes", ".gitkeep", ".gitlab-ci.yml", ".github/workflows/x.yml", ".git/HEAD",
+	".hidden", ".config/tool.toml", ".x1.go.swp", "_skip/notes.txt"}
+var sumLookalikes = []string{"gengo.sum.bak", ".gengo.sum", "gengo.summary", "gengo.sum~", "agengo.sum", "gengo.su", "etc/gengo.sum", "GENGO.SUM"}
+
+// oddFile: a dot-file or a gengo.sum look-alike; in a package below the module root also a file called gengo.sum
+func (g *hgen) oddFile(p int) string {
+	switch k := g.r.Intn(10); {
+	case k < 6:
+		return core.Pick(g.r, dotFiles)
+	case k < 9 || g.in.Pkgs[p].Dir == ".":
+		return core.Pick(g.r, sumLookalikes)
+	}
+	return sumName
+}
+
+func (g *hgen) rootPkg() int {
+	for i, p := range g.in.Pkgs {
+		if p.Dir == "." {
+			return i
+		}
+	}
+	return -1
+}
+
 type hgen struct {
 	r   *core.RNG
 	in  input
@@ -40,6 +67,12 @@ func (g *hgen) pkg() int { return g.r.Intn(len(g.in.Pkgs)) }
 func (g *hgen) edit() opIn {
 	g.ver++
 	p := g.pkg()
+	if g.r.Chance(12) { // dot-files and gengo.sum look-alikes, created / edited / deleted
+		if g.r.Chance(30) {
+			return opIn{K: "del", P: p, File: g.oddFile(p)}
+		}
+		return opIn{K: "set", P: p, File: g.oddFile(p), V: g.ver}
+	}
 	switch k := g.r.Intn(20); {
 	case k < 11:
 		return opIn{K: "set", P: p, File: core.Pick(g.r, editFiles), V: g.ver}
@@ -152,13 +185,43 @@ func (g *hgen) module() {
 	for _, d := range sh {
 		g.in.Pkgs = append(g.in.Pkgs, pkgDecl{Dir: d})
 	}
-	for i := range g.in.Pkgs {
-		for j := i + 1; j < len(g.in.Pkgs); j++ {
+	// import edges along a random topological order: an imported package may sort BEFORE or AFTER its importer
+	// (LocalPkgPaths is sorted: with All on a subset of the entrypoints the packages that are in the run through
+	// imports only are judged before / after the first entrypoint)
+	n := len(g.in.Pkgs)
+	rank := make([]int, n)
+	for i := range rank {
+		rank[i] = i
+	}
+	if g.r.Chance(60) {
+		for i := n - 1; i > 0; i-- {
+			j := g.r.Intn(i + 1)
+			rank[i], rank[j] = rank[j], rank[i]
+		}
+	}
+	for a := 0; a < n; a++ {
+		for b := a + 1; b < n; b++ {
 			if g.r.Chance(30) {
-				g.in.Pkgs[i].Imports = append(g.in.Pkgs[i].Imports, j)
+				g.in.Pkgs[rank[a]].Imports = append(g.in.Pkgs[rank[a]].Imports, rank[b])
 			}
 		}
 	}
+	for i := range g.in.Pkgs {
+		sort.Ints(g.in.Pkgs[i].Imports)
+	}
+}
+
+// backEdges: (importer, imported) pairs whose imported package sorts before the importer
+func (g *hgen) backEdges() [][2]int {
+	var out [][2]int
+	for i, p := range g.in.Pkgs {
+		for _, j := range p.Imports {
+			if importPath(g.in.Mod, g.in.Pkgs[j].Dir) < importPath(g.in.Mod, p.Dir) {
+				out = append(out, [2]int{i, j})
+			}
+		}
+	}
+	return out
 }
 
 // history of the given kind: "mixed" | "malformed" (damage to gengo.sum dominates) | "converge" |
@@ -195,6 +258,96 @@ func (g *hgen) history(kind string) json.RawMessage {
 		b, _ := json.Marshal(g.in)
 		return b
 	}
+	if kind == "dotfiles" {
+		// a module (70 %: with a package at the module root) is brought to rest; then dot-files, files in dot-directories
+		// and gengo.sum look-alikes are created, edited and deleted in the root package and in packages below it, a
+		// plain All run after each change (the package must regenerate) and often a second one (must be idle again)
+		if g.r.Chance(70) {
+			for tries := 0; tries < 30 && g.rootPkg() < 0; tries++ {
+				g.module()
+			}
+		}
+		plain := opIn{K: "run", All: true}
+		ops := []opIn{plain, plain, plain}
+		for k := 1 + g.r.Intn(3); k > 0; k-- {
+			p := g.pkg()
+			if root := g.rootPkg(); root >= 0 && g.r.Chance(60) {
+				p = root
+			}
+			f := g.oddFile(p)
+			g.ver++
+			ops = append(ops, opIn{K: "set", P: p, File: f, V: g.ver}, plain)
+			if g.r.Bool() {
+				ops = append(ops, plain)
+			}
+			if g.r.Chance(60) {
+				g.ver++
+				ops = append(ops, opIn{K: "set", P: p, File: f, V: g.ver}, plain)
+				if g.r.Chance(30) {
+					ops = append(ops, plain)
+				}
+			}
+			if g.r.Chance(60) {
+				ops = append(ops, opIn{K: "del", P: p, File: f}, plain)
+				if g.r.Chance(30) {
+					ops = append(ops, plain)
+				}
+			}
+		}
+		g.in.Ops = ops
+		b, _ := json.Marshal(g.in)
+		return b
+	}
+	if kind == "subsetconverge" {
+		// All on a subset of the entrypoints, repeated on unchanged inputs: the packages that are in the run through
+		// imports only - sorting before and after the entrypoints - come to rest like the others (4th identical run idle)
+		for tries := 0; tries < 30 && len(g.backEdges()) == 0; tries++ {
+			g.module()
+		}
+		if len(g.backEdges()) == 0 && len(g.in.Pkgs) > 1 {
+			for i := range g.in.Pkgs {
+				g.in.Pkgs[i].Imports = nil
+			}
+			g.in.Pkgs[len(g.in.Pkgs)-1].Imports = []int{0}
+		}
+		var entry []int
+		if be := g.backEdges(); len(be) > 0 && g.r.Chance(75) {
+			e := core.Pick(g.r, be)
+			entry = []int{e[0]}
+			imported := map[int]bool{}
+			for _, j := range g.in.Pkgs[e[0]].Imports {
+				imported[j] = true
+			}
+			for j := range g.in.Pkgs {
+				if j != e[0] && !imported[j] && g.r.Chance(20) {
+					entry = append(entry, j)
+				}
+			}
+			sort.Ints(entry)
+		} else {
+			entry = g.importerOnly()
+		}
+		plain := opIn{K: "run", All: true}
+		sub := opIn{K: "run", All: true, Entry: entry}
+		var ops []opIn
+		for k := g.r.Intn(3); k > 0; k-- {
+			ops = append(ops, plain)
+		}
+		ops = append(ops, sub, sub, sub, sub)
+		for k := g.r.Intn(3); k > 0; k-- {
+			ops = append(ops, g.edit())
+			if g.r.Chance(25) {
+				ops = append(ops, plain)
+			}
+			ops = append(ops, sub, sub)
+			if g.r.Chance(70) {
+				ops = append(ops, sub, sub)
+			}
+		}
+		g.in.Ops = ops
+		b, _ := json.Marshal(g.in)
+		return b
+	}
 	n := 3 + g.r.Intn(8)
 	var ops []opIn
 	if g.r.Chance(70) {
@@ -218,8 +371,11 @@ func (g *hgen) history(kind string) json.RawMessage {
 	}
 	if kind == "converge" {
 		r := opIn{K: "run", All: true}
-		if g.r.Chance(30) {
+		if g.r.Chance(45) {
 			r.Entry = g.subset()
+			if g.r.Bool() {
+				r.Entry = g.importerOnly()
+			}
 		}
 		ops = append(ops, r, r, r, r)
 	}
@@ -258,6 +414,22 @@ func fixedCases() []json.RawMessage {
 				{K: "run", Force: true, Entry: []int{0}}, run}},
 		{Mod: "example.com/m", Pkgs: []pkgDecl{{Dir: ".", Imports: []int{1, 2}}, {Dir: "a", Imports: []int{2}}, {Dir: "a/sub"}},
 			Ops: []opIn{run, run, run, {K: "run", All: true, Force: true, Entry: []int{1}}, {K: "run", All: true, Force: true, Entry: []int{0}}, run}},
+		// a package at the module root: only the module's own gengo.sum is left out of its directory hash - dot-files,
+		// files in dot-directories and gengo.sum look-alikes, in the root and below it, make it regenerate (seeded change
+		// C08-g: every name with the prefix ".git" dropped from the hash of the root package)
+		{Mod: "example.com/m", Pkgs: []pkgDecl{{Dir: "."}, {Dir: "a"}},
+			Ops: []opIn{run, run, run, {K: "set", P: 0, File: ".gitignore", V: 2}, run, run, {K: "set", P: 0, File: ".gitignore", V: 3}, run,
+				{K: "set", P: 0, File: ".github/workflows/x.yml", V: 4}, run, {K: "del", P: 0, File: ".gitignore"}, run, run,
+				{K: "set", P: 1, File: ".gitattributes", V: 5}, run, {K: "set", P: 0, File: "gengo.sum.bak", V: 6}, run,
+				{K: "set", P: 1, File: sumName, V: 7}, run, {K: "set", P: 0, File: ".gengo.sum", V: 8}, run, {K: "del", P: 1, File: sumName}, run, run}},
+		// All on the entrypoint ./b only, b imports a (sorts before b) and z (sorts after): repeated runs come to rest
+		// for a and z too (seeded change C08-h: previous sums loaded on reaching the first direct package)
+		{Mod: "example.com/m", Pkgs: []pkgDecl{{Dir: "a"}, {Dir: "b", Imports: []int{0, 2}}, {Dir: "z"}},
+			Ops: []opIn{{K: "run", All: true, Entry: []int{1}}, {K: "run", All: true, Entry: []int{1}}, {K: "run", All: true, Entry: []int{1}}, {K: "run", All: true, Entry: []int{1}},
+				{K: "set", P: 2, File: "x1.go", V: 4}, {K: "run", All: true, Entry: []int{1}}, {K: "run", All: true, Entry: []int{1}}, {K: "run", All: true, Entry: []int{1}}, {K: "run", All: true, Entry: []int{1}},
+				{K: "set", P: 0, File: "notes.txt", V: 5}, {K: "run", All: true, Entry: []int{1}}, {K: "run", All: true, Entry: []int{1}}, run, run}},
+		{Mod: "example.com/m", Pkgs: []pkgDecl{{Dir: ".", Imports: []int{1}}, {Dir: "a"}, {Dir: "a/sub", Imports: []int{0}}},
+			Ops: []opIn{run, run, run, {K: "run", All: true, Entry: []int{2}}, {K: "run", All: true, Entry: []int{2}}, {K: "run", All: true, Entry: []int{2}}, {K: "run", All: true, Entry: []int{2}}}},
 		// stale output trusted after the generated file is put back (not claimed otherwise)
 		{Mod: "example.com/m", Pkgs: []pkgDecl{{Dir: "a"}}, Ops: []opIn{{K: "set", P: 0, File: genFile, V: 3}, run, run, {K: "restoregen", P: 0}, run}},
 		// the tagged type disappears: the generated file is removed
@@ -435,6 +607,54 @@ func exhaustiveForceSubset() []json.RawMessage {
 	return out
 }
 
+// exhaustiveSmall: after `prefix`, every history of length <= maxLen that ends in a run, over the alphabet
+func exhaustiveSmall(mod input, prefix []opIn, alphabet []opIn, maxLen int) []json.RawMessage {
+	var out []json.RawMessage
+	var rec func(h []opIn)
+	rec = func(h []opIn) {
+		if n := len(h); n > 0 && h[n-1].K == "run" {
+			in := mod
+			in.Ops = append([]opIn{}, prefix...)
+			v := 1
+			for _, o := range h {
+				if o.K == "set" {
+					v++
+					o.V = 2 * v
+				}
+				in.Ops = append(in.Ops, o)
+			}
+			b, _ := json.Marshal(in)
+			out = append(out, b)
+		}
+		if len(h) == maxLen {
+			return
+		}
+		for _, o := range alphabet {
+			rec(append(append([]opIn{}, h...), o))
+		}
+	}
+	rec(nil)
+	return out
+}
+
+// exhaustiveRootDot: a package at the module root and one below it, at rest after three plain All runs; every history
+// of length <= 3 ending in a run over {create/edit .gitignore in the root, delete it, create/edit a/.gitignore,
+// create/edit gengo.sum.bak in the root, create/edit a/gengo.sum, run All}
+func exhaustiveRootDot() []json.RawMessage {
+	plain := opIn{K: "run", All: true}
+	return exhaustiveSmall(input{Mod: "example.com/m", Pkgs: []pkgDecl{{Dir: "."}, {Dir: "a"}}}, []opIn{plain, plain, plain},
+		[]opIn{{K: "set", P: 0, File: ".gitignore"}, {K: "del", P: 0, File: ".gitignore"}, {K: "set", P: 1, File: ".gitignore"},
+			{K: "set", P: 0, File: "gengo.sum.bak"}, {K: "set", P: 1, File: sumName}, plain}, 3)
+}
+
+// exhaustiveSubsetOrder: b imports a (sorts before b) and c (sorts after); every history of length <= 4 ending in a
+// run over {edit a, edit c, run All on b only, run All on a only, run All}
+func exhaustiveSubsetOrder() []json.RawMessage {
+	return exhaustiveSmall(input{Mod: "example.com/m", Pkgs: []pkgDecl{{Dir: "a"}, {Dir: "b", Imports: []int{0, 2}}, {Dir: "c"}}}, nil,
+		[]opIn{{K: "set", P: 0, File: "x1.go"}, {K: "set", P: 2, File: "x1.go"}, {K: "run", All: true, Entry: []int{1}},
+			{K: "run", All: true, Entry: []int{0}}, {K: "run", All: true}}, 4)
+}
+
 func (prop) Generate(r *core.RNG, tier string) []json.RawMessage {
 	nHist, nSum := 100, 300
 	if tier == "thorough" {
@@ -449,8 +669,12 @@ func (prop) Generate(r *core.RNG, tier string) []json.RawMessage {
 			kind = "malformed"
 		case k < 37:
 			kind = "converge"
-		case k < 49:
+		case k < 47:
 			kind = "forcesubset"
+		case k < 58:
+			kind = "dotfiles"
+		case k < 69:
+			kind = "subsetconverge"
 		}
 		out = append(out, g.history(kind))
 	}
@@ -460,13 +684,15 @@ func (prop) Generate(r *core.RNG, tier string) []json.RawMessage {
 	if tier == "thorough" {
 		out = append(out, exhaustive()...)
 		out = append(out, exhaustiveForceSubset()...)
+		out = append(out, exhaustiveRootDot()...)
+		out = append(out, exhaustiveSubsetOrder()...)
 	}
 	return out
 }
 
 func (prop) Extra(r *core.RNG, tier string, scratch string) ([]string, []string, map[string]any) {
 	stats := map[string]any{"exhaustive": tier == "thorough",
-		"exhaustive_scope": "thorough: every history of length <= 4 that ends in a run, over 2 packages and the alphabet {edit a, edit b, delete gengo.sum, drop its first line, run All, run All+Force, run All failing in b, run All on entrypoint a only, run without All}; and, with a importing b, after two plain All runs every history of length <= 3 that ends in a run over {edit a, edit b, run All, run All+Force, run All on a only, run All+Force on a only}"}
+		"exhaustive_scope": "thorough: every history of length <= 4 that ends in a run, over 2 packages and the alphabet {edit a, edit b, delete gengo.sum, drop its first line, run All, run All+Force, run All failing in b, run All on entrypoint a only, run without All}; and, with a importing b, after two plain All runs every history of length <= 3 that ends in a run over {edit a, edit b, run All, run All+Force, run All on a only, run All+Force on a only}; and, with a package at the module root and package a below it at rest after three plain All runs, every history of length <= 3 that ends in a run over {set .gitignore in the root, delete it, set a/.gitignore, set gengo.sum.bak in the root, set a/gengo.sum, run All}; and, with b importing a and c, every history of length <= 4 that ends in a run over {edit a, edit c, run All on b only, run All on a only, run All}"}
 	// The deliberate NON-claim (DESIGN.md, C08): cache transparency.  The recorded hash is the one of the state a run
 	// STARTED from, so putting that state back (sources + an older generated file) is trusted.  Shown, not judged.
 	run := opIn{K: "run", All: true}
